@@ -160,8 +160,11 @@ def vccs_from(data):
 
 
 def extract_inputs(trace):
-    """Pull vin_* assignments out of a json-ui trace (last value wins)."""
+    """Pull vin_* assignments out of a json-ui trace.  `name` holds the last value; an input that is
+    assigned several times (declared inside a loop) additionally gets `name#k` for its k-th value, which
+    the native v_get() hands out call by call."""
     vals = {}
+    seq = {}
     for st in trace:
         if st.get("stepType") != "assignment":
             continue
@@ -181,6 +184,12 @@ def extract_inputs(trace):
         iv = _val(v)
         if iv is not None:
             vals[name] = iv
+            if "[" not in name:
+                seq.setdefault(name, []).append(iv)
+    for name, lst in seq.items():
+        if len(lst) > 1:
+            for k, iv in enumerate(lst):
+                vals["%s#%d" % (name, k)] = iv
     return vals
 
 
